@@ -103,6 +103,11 @@ def run(chk):
     obs.validate(chk, batch, 'obs-dpss', lambda ev, cl: 'C18:OBS:%s:%s' % (cl, 'default-k' if ev['k'] == 0 else 'k'),
                  lambda ev, cl: 'dpss(N=%d, NW=%s, k=%s): clause "%s" fails: %s' % (ev['N'], ev['nw100'] / 100.0, ev['k'] or None, cl, ev))
     chk.sample('obs-event', batch.events[0], 1)
+    # evidence at the level claimed in MANIFEST (exploration): distinct in-domain configurations that returned tapers
+    chk.level = 'exploration'
+    chk.distinct_nontrivial = len({(e['N'], e['nw100'], e['k']) for e in batch.events if not e['raised'] and e['cols'] >= 1})
+    chk.rule = ('one call of dpss per (N, NW, k) of a fixed grid (sizes 8..4096, half-integer and other NW, k in {1, floor(2NW), mid, default}); '
+                'a case is counted when it is a distinct (N, NW, k) triple inside the domain of ObsC18.tla for which dpss returned at least one taper')
     chk.assumptions.append('the sinc kernel is built from its formula in double precision; the eigen-solver of the "leading" clause is numpy.linalg.eigvalsh (N <= 256); kernel clauses up to N = 1024')
 
 
